@@ -39,8 +39,8 @@ def gen_cases(tier, seed):
     else:
         cases = mapcases.exhaustive_shape_cases(
             rng, per_shape_variants=False)
-        cases += mapcases.nasty_quick_cases(rng, 150)
-        cases += mapcases.random_large_cases(rng, 180, max_leaves=20,
+        cases += mapcases.nasty_quick_cases(rng, 1600)
+        cases += mapcases.random_large_cases(rng, 1600, max_leaves=20,
                                              max_cells=80)
     for i, c in enumerate(cases):
         c['with_csv'] = True
